@@ -215,6 +215,55 @@ def ob_select_proj(tomo, sysname, m, flag, first, second):
                 stubs=["constraint projections uninterpreted (Peq, Pineq); physical projection unrolled to max_iteration_proj_physical = 2"])
 
 
+def ob_lme_sequence(kind, mode):
+    """LossMinimizationEstimator.calc_estimate_sequence wiring: for EVERY data set of the sequence the loss is configured for that data
+    set (data, weights of the requested mode) before the algorithm runs.  The algorithm is a probe that returns the loss' gradient at a
+    symbolic point as its "estimate": entry k of the sequence result == gradient of a FRESH loss configured for data set k alone"""
+    import c12
+    tomo, sysname, m_, flag = "qst", "Q1", 0, False
+    nv = c03.n_var(TOMO_TYPE[tomo], 2, m_, flag)
+    rng = np.random.RandomState(21)
+    sizes = [2, 2, 2]
+    D = [[(30 + 25 * k, rng.dirichlet(np.ones(s_) * 2.0)) for s_ in sizes] for k in range(3)]
+
+    def run(I):
+        from quara.protocol.qtomography.standard.loss_minimization_estimator import LossMinimizationEstimator
+        from quara.minimization_algorithm.minimization_algorithm import MinimizationAlgorithm, MinimizationAlgorithmOption, MinimizationResult
+        qt, tmpl, sel, sched = c12.build_qt(tomo, sysname, m_, flag)
+        x = vec_of(I, "x", nv)
+
+        class Probe(MinimizationAlgorithm):
+            def __init__(self):
+                super().__init__()
+                self._is_gradient_required = True
+
+            def is_loss_sufficient(self):
+                return True
+
+            def set_constraint_from_standard_qt_and_option(self, qt_, option_):
+                pass
+
+            def is_option_sufficient(self):
+                return True
+
+            def is_loss_and_option_sufficient(self):
+                return True
+
+            def optimize(self, loss_function, loss_function_option, algorithm_option, on_iteration_history=False):
+                return MinimizationResult(loss_function.gradient(x), computation_time=0.0)
+        opt = (lambda: c12.se_option(mode)) if kind.startswith("se") else (lambda: c12.re_option(mode))
+        cls = type(c12.make_loss(kind, qt, opt(), [(n, q.copy()) for n, q in D[0]]))
+        loss = cls()
+        res = LossMinimizationEstimator().calc_estimate_sequence(qt, [[(n, q.copy()) for n, q in d_] for d_ in D], loss, opt(), Probe(), MinimizationAlgorithmOption(),
+                                                                 is_computation_time_required=False)
+        out = [Holds("one estimate per data set", len(res.estimated_var_sequence) == len(D))]
+        for k, d_ in enumerate(D):
+            fresh = c12.make_loss(kind, qt, opt(), [(n, q.copy()) for n, q in d_])
+            out.append(Eq(f"data set {k}: the loss the algorithm saw == a fresh loss configured for that data set", res.estimated_var_sequence[k], fresh.gradient(x), 1e-7))
+        return out
+    return FnOb(reals("x", nv, -1.0, 1.0), run, max_paths=40, expect_nonlinear=True, eager_ite=True)
+
+
 def ob_start_point(tomo, sysname, m, flag, algo_name):
     """without var_start the algorithms start from the variables of the origin object of the estimation template"""
     d = DIMS[sysname]
@@ -287,6 +336,8 @@ def obligations(tier):
     for tomo, s, m in [("qst", "Q1", 0), ("povmt", "Q1", 2), ("qpt", "Q1", 0)]:
         for algo_name in ("backtracking", "momentum", "fista"):
             out += specs("C10.start_point", [{"tomo": tomo, "sysname": s, "m": m, "flag": f, "algo_name": algo_name} for f in (True, False)], ob_start_point, 1)
+    out += specs("C10.lme.sequence", [{"kind": k_, "mode": md} for k_ in ("se", "se_fast") for md in ("identity", "inverse_sample_covariance", "inverse_unbiased_covariance")] +
+                 [{"kind": "re_fast", "mode": "identity"}], ob_lme_sequence, 3)
     return out
 
 
